@@ -53,6 +53,22 @@ func runModeNormal(procs *[]Process) (exitNum int) {
 	return
 }
 
+// skipOrAlternatives is called when (*procs)[i] succeeded and is followed by an
+// `||` alternative. A skipped command counts as succeeding, so every `||`
+// alternative that follows, together with the rest of its pipeline, is skipped.
+// It returns the index of the last skipped process.
+func skipOrAlternatives(procs *[]Process, i int) int {
+	for i+1 < len(*procs) && ((*procs)[i+1].OperatorLogicOr || (*procs)[i+1].IsMethod) {
+		i++
+		(*procs)[i].SetTerminatedState(true)
+		(*procs)[i].Stdout.Close()
+		(*procs)[i].Stderr.Close()
+		GlobalFIDs.Deregister((*procs)[i].Id)
+		(*procs)[i].State.Set(state.AwaitingGC)
+	}
+	return i
+}
+
 // `try` - Last process in each pipe is checked.
 func runModeTry(procs *[]Process, tryErr bool) (exitNum int) {
 	if len((*procs)) == 0 {
@@ -73,12 +89,7 @@ func runModeTry(procs *[]Process, tryErr bool) (exitNum int) {
 
 			if next < len(*procs) {
 				if exitNum < 1 && (*procs)[next].OperatorLogicOr {
-					i++
-					(*procs)[i].SetTerminatedState(true)
-					(*procs)[i].Stdout.Close()
-					(*procs)[i].Stderr.Close()
-					GlobalFIDs.Deregister((*procs)[i].Id)
-					(*procs)[i].State.Set(state.AwaitingGC)
+					i = skipOrAlternatives(procs, i)
 					continue
 				}
 
@@ -120,12 +131,7 @@ func runModeTryPipe(procs *[]Process, tryPipeErr bool) (exitNum int) {
 		next := i + 1
 		if next < len(*procs) {
 			if exitNum < 1 && (*procs)[next].OperatorLogicOr {
-				i++
-				(*procs)[i].SetTerminatedState(true)
-				(*procs)[i].Stdout.Close()
-				(*procs)[i].Stderr.Close()
-				GlobalFIDs.Deregister((*procs)[i].Id)
-				(*procs)[i].State.Set(state.AwaitingGC)
+				i = skipOrAlternatives(procs, i)
 				continue
 			}
 
